@@ -1,10 +1,13 @@
 //@ module: air_verify_canon
 //@ crate: aquavm-air
 //@ attach: air/src/execution_step/instructions/canon_utils/mod.rs
-//@ functions: verify_canon
+//@ functions: verify_canon; handle_unseen_canon; handle_canon_request_sent_by; resolve_peer_id_to_string (literal); TraceHandler::meet_canon_end
 //@ stubs: alloc::fmt::format -> empty String
 //@ assumes: tetraplet components chosen symbolically from 2-string palettes of 1-byte strings
 //@ decides: C14: verify_canon accepts iff all four tetraplet components are equal
+//@ decides: C19/C11: a canon met for the first time is canonicalized only when addressed to the current peer; otherwise exactly its target is pushed to the next peers, the subgraph is marked incomplete and RequestSentBy(current peer) is recorded; a stored canon request is kept unchanged (no new forwarding) unless the canon is addressed to the current peer
+//@ harness: name=c19_unseen_canon_forwards_or_canonicalizes props=C19,C11 cap=1800 cost=120 sym="target peer of the canon: me / other (literal); next-peer list initially empty or holding one entry" bound="partial context (next_peer_pks, run_parameters, completeness flag); the closures that create the canon stream are cut (assume false) after recording that they were reached"
+//@ harness: name=c11_pending_canon_request_kept_or_canonicalized props=C11,C19,C07 cap=1800 cost=120 sym="target peer me / other; sender of the stored request p / q" bound="same"
 //@ harness: name=c14_verify_canon_iff_equal props=C14,C04 cap=600 cost=20 sym="8 symbolic component choices" bound="2-string palette per component, unwind 4"
 
 use super::*;
@@ -45,4 +48,101 @@ fn c14_verify_canon_iff_equal() {
     kani::cover!(r.is_err(), "rejected");
     std::mem::forget(r);
     std::mem::forget((expected, stored));
+}
+
+use crate::execution_step::execution_context::RcRunParameters;
+use std::mem::MaybeUninit;
+use std::ptr::addr_of_mut;
+use std::rc::Rc;
+
+fn partial_ctx(me: &str) -> MaybeUninit<ExecutionCtx<'static>> {
+    let mut u = MaybeUninit::<ExecutionCtx<'static>>::uninit();
+    let p = u.as_mut_ptr();
+    unsafe {
+        addr_of_mut!((*p).next_peer_pks).write(Vec::new());
+        addr_of_mut!((*p).run_parameters).write(RcRunParameters {
+            init_peer_id: "i".into(),
+            current_peer_id: Rc::new(me.to_string()),
+            salt: "".into(),
+            timestamp: 0,
+            ttl: 0,
+        });
+        (*p).set_subgraph_completeness(true);
+    }
+    u
+}
+
+static mut TARGET_IS_ME: bool = false;
+
+/// reached only when the interpreter decides to canonicalize the stream on this peer
+fn create_stream(_ctx: &mut ExecutionCtx<'_>, _peer: String) -> CanonStream {
+    kani::assert(unsafe { TARGET_IS_ME }, "C11/C19: a stream is canonicalized only by the peer the canon is addressed to");
+    kani::cover!(true, "the designated peer canonicalizes");
+    kani::assume(false);
+    loop {}
+}
+
+fn epilog(_s: CanonStream, _c: CID<CanonResultCidAggregate>, _ctx: &mut ExecutionCtx<'_>, _t: &mut TraceHandler) -> ExecutionResult<()> {
+    kani::assert(false, "harness: the epilog is never reached (creation is cut)");
+    Ok(())
+}
+
+#[kani::proof]
+#[kani::unwind(6)]
+#[kani::stub(alloc::fmt::format, fmt_stub)]
+fn c19_unseen_canon_forwards_or_canonicalizes() {
+    let mut u = partial_ctx("me");
+    let ctx = unsafe { &mut *u.as_mut_ptr() };
+    let mut trace = TraceHandler::default();
+    let target_me: bool = kani::any();
+    unsafe { TARGET_IS_ME = target_me };
+    let had_one: bool = kani::any();
+    if had_one {
+        ctx.next_peer_pks.push("zero".to_string());
+    }
+    let target = ResolvableToPeerIdVariable::Literal(if target_me { "me" } else { "other" });
+    let r = handle_unseen_canon(&epilog, &create_stream, &target, ctx, &mut trace);
+    // only the remote case returns (the local case is cut inside create_stream after its checks)
+    kani::assert(!target_me, "harness: the local case ends in create_stream");
+    kani::assert(r.is_ok(), "C19: forwarding a canon never fails");
+    let n = ctx.next_peer_pks.len();
+    kani::assert(n == had_one as usize + 1 && ctx.next_peer_pks[n - 1] == "other", "C19: exactly the canon's target is added to the next peers");
+    kani::assert(!ctx.is_subgraph_complete(), "C19: subgraph incomplete after forwarding");
+    let emitted = trace.as_result_trace();
+    kani::assert(emitted.len() == 1, "C19: one state emitted");
+    kani::assert(
+        matches!(emitted.get(0.into()), Some(air_interpreter_data::ExecutedState::Canon(CanonResult::RequestSentBy(p))) if p.as_str() == "me"),
+        "C19: the canon is recorded as sent by the current peer"
+    );
+    kani::cover!(!target_me && had_one, "forwarded with an earlier next peer");
+    std::mem::forget((r, trace));
+    std::mem::forget(u);
+}
+
+#[kani::proof]
+#[kani::unwind(6)]
+#[kani::stub(alloc::fmt::format, fmt_stub)]
+fn c11_pending_canon_request_kept_or_canonicalized() {
+    let mut u = partial_ctx("me");
+    let ctx = unsafe { &mut *u.as_mut_ptr() };
+    let mut trace = TraceHandler::default();
+    let target_me: bool = kani::any();
+    unsafe { TARGET_IS_ME = target_me };
+    let sender_p: bool = kani::any();
+    let stored = CanonResult::request_sent_by(Rc::new(if sender_p { "p" } else { "q" }.to_string()));
+    let expected_back = stored.clone();
+    let target = ResolvableToPeerIdVariable::Literal(if target_me { "me" } else { "other" });
+    let r = handle_canon_request_sent_by(&epilog, &create_stream, &target, stored, ctx, &mut trace);
+    kani::assert(!target_me, "harness: the local case ends in create_stream");
+    kani::assert(r.is_ok(), "C11: keeping a pending canon request never fails");
+    kani::assert(ctx.next_peer_pks.is_empty(), "C19/C07: a stored canon request does not forward the particle again");
+    kani::assert(!ctx.is_subgraph_complete(), "C19: subgraph incomplete while the canon is pending elsewhere");
+    let emitted = trace.as_result_trace();
+    kani::assert(
+        emitted.len() == 1 && matches!(emitted.get(0.into()), Some(air_interpreter_data::ExecutedState::Canon(c)) if *c == expected_back),
+        "C11/C07: the stored request is re-emitted unchanged"
+    );
+    kani::cover!(!target_me && !sender_p, "kept");
+    std::mem::forget((r, trace, expected_back));
+    std::mem::forget(u);
 }
